@@ -1,6 +1,7 @@
 package main
 
 import (
+	"go/types"
 	"fmt"
 	"strings"
 
@@ -277,22 +278,10 @@ func runC06(c *Ctx) {
 			if !ok {
 				continue
 			}
-			al, ok := unspill(ret, 0).(*ssa.Alloc)
-			if !ok {
-				c.Undec("O4", "RET", funcKey(hs)+": result construction", instrPos(ret), "the solver result is not a struct literal: the solved flag cannot be located")
+			solvedTrue, known := solvedFlagMayBeTrue(unspill(ret, 0), solvedF, 3)
+			if !known {
+				c.Undec("O4", "RET", funcKey(hs)+": result construction", instrPos(ret), "the solver result is neither a struct literal nor the result of a helper that returns one: the solved flag cannot be located")
 				continue
-			}
-			solvedTrue := false
-			for _, r := range *al.Referrers() {
-				if fa, ok := r.(*ssa.FieldAddr); ok && solvedF[fieldOfAddr(fa)] {
-					for _, rr := range *fa.Referrers() {
-						if st, ok := rr.(*ssa.Store); ok {
-							if k, ok := st.Val.(*ssa.Const); !ok || k.Value == nil || k.Value.ExactString() != "false" {
-								solvedTrue = true
-							}
-						}
-					}
-				}
 			}
 			if !solvedTrue {
 				continue
@@ -481,4 +470,53 @@ func runC06(c *Ctx) {
 		}
 		c.Floor("O6", "RET releasing tests", n, 1)
 	}
+}
+
+// solvedFlagMayBeTrue: v is a solutionResult literal (or the result of a module helper all of whose returns are
+// such literals); reports whether its solved field can be anything but the constant false.
+func solvedFlagMayBeTrue(v ssa.Value, solvedF map[*types.Var]bool, depth int) (mayBeTrue, known bool) {
+	switch x := v.(type) {
+	case *ssa.Alloc:
+		for _, r := range *x.Referrers() {
+			if fa, ok := r.(*ssa.FieldAddr); ok && solvedF[fieldOfAddr(fa)] {
+				for _, rr := range *fa.Referrers() {
+					if st, ok := rr.(*ssa.Store); ok {
+						if k, ok := st.Val.(*ssa.Const); !ok || k.Value == nil || k.Value.ExactString() != "false" {
+							mayBeTrue = true
+						}
+					}
+				}
+			}
+		}
+		return mayBeTrue, true
+	case *ssa.Call:
+		cal := x.Common().StaticCallee()
+		if cal == nil || len(cal.Blocks) == 0 || depth == 0 || !hasModPrefix(cal) {
+			return false, false
+		}
+		n := 0
+		for _, b := range cal.Blocks {
+			ret, ok := b.Instrs[len(b.Instrs)-1].(*ssa.Return)
+			if !ok || len(ret.Results) != 1 {
+				continue
+			}
+			n++
+			m, k := solvedFlagMayBeTrue(unspill(ret, 0), solvedF, depth-1)
+			if !k {
+				return false, false
+			}
+			mayBeTrue = mayBeTrue || m
+		}
+		return mayBeTrue, n > 0
+	case *ssa.Phi:
+		for _, e := range x.Edges {
+			m, k := solvedFlagMayBeTrue(e, solvedF, depth)
+			if !k {
+				return false, false
+			}
+			mayBeTrue = mayBeTrue || m
+		}
+		return mayBeTrue, len(x.Edges) > 0
+	}
+	return false, false
 }
